@@ -59,6 +59,11 @@ def check_sandwich(ctx: Ctx, init: FuncInfo, spec: Dict):
     prog = CircuitProgram(init)
     events = prog.run()
     st, idx, flat = state_at_first_oracle(events, ("in", "out"))
+    unplaced = [e for e in flat if "?loop" in e[1:]]
+    if unplaced:
+        raise AnchorError(init.short, f"gates emitted in a loop over an iterable outside the tables: {_show(unplaced)}")
+    subset = [e for e in flat if "in~" in e[1:]]
+    ctx.check(not subset, "TS-PREP", init, "no gate layer is restricted to a run-time-selected subset of the qubits", "", f"{_show(subset)}: the loop visits only the qubits passing a run-time filter - the Hadamard sandwich must cover every input qubit for every f", init.node)
     n_or = sum(1 for e in flat if e[0] == "ORACLE")
     ctx.check(n_or == 1, "TS-PREP", init, "exactly one black-box application", f"events: {_show(flat)}", f"{n_or} black-box applications in {_show(flat)}", init.node)
     if st is None:
